@@ -27,23 +27,27 @@ def has_body(n):
     return any(c.get("kind") == "CompoundStmt" for c in n.get("inner", []))
 
 
-def find_defs(objs, last, sig=None):
-    """function definitions named `last` among the top-level nodes (and template instantiations inside them)"""
+def find_defs(objs, last, sig=None, targs=None):
+    """function definitions named `last` among the top-level nodes (and template instantiations inside them);
+    targs: required template arguments of the enclosing class template specialization, e.g. 'int' or 'int,double'"""
     found = []
 
-    def visit(n, depth):
+    def visit(n, depth, ctx):
         k = n.get("kind")
         if k in FUNC_KINDS and n.get("name") == last and has_body(n):
-            if sig is None or sig in n.get("type", {}).get("qualType", ""):
+            if (sig is None or sig in n.get("type", {}).get("qualType", "")) and (targs is None or targs == ctx):
                 found.append(n)
+        if k == "ClassTemplateSpecializationDecl":
+            ctx = ",".join((c.get("type") or {}).get("qualType", c.get("value", "?")) for c in n.get("inner", [])
+                           if isinstance(c, dict) and c.get("kind") == "TemplateArgument")
         if k in ("FunctionTemplateDecl", "ClassTemplateDecl", "CXXRecordDecl", "ClassTemplateSpecializationDecl",
                  "NamespaceDecl", "LinkageSpecDecl") and depth < 4:
             for c in n.get("inner", []):
                 if isinstance(c, dict):
-                    visit(c, depth + 1)
+                    visit(c, depth + 1, ctx)
 
     for o in objs:
-        visit(o, 0)
+        visit(o, 0, None)
     return found
 
 
@@ -99,6 +103,33 @@ def enum_values(objs, enum_last):
     return None
 
 
+def eval_constants(cfg, names, outdir):
+    """values of compile-time constants of the real code, obtained from the real compiler: a generated program
+    includes the real header and prints each constant (config const_globals: name -> {expr, include})."""
+    import subprocess
+    if not names:
+        return {}
+    repo = astq.REPO
+    incs, prints = [], []
+    for n in sorted(names):
+        c = cfg["const_globals"][n]
+        incs.append('#include "%s/%s"' % (repo, c["include"]))
+        prints.append('  printf("%s %%lld\\n", (long long)(%s));' % (n, c["expr"]))
+    src = os.path.join(outdir, "vf_consts.cpp")
+    open(src, "w").write("\n".join(sorted(set(incs))) + "\n#include <cstdio>\nint main()\n{\n" + "\n".join(prints) +
+                         "\n  return 0;\n}\n")
+    flags = [f for f in astq.tu_flags(cfg["units"][0]["tu"]) if not f.startswith("-std=")]
+    exe = os.path.join(outdir, "vf_consts")
+    p = subprocess.run(["g++", "-std=gnu++20", "-w", "-fno-access-control"] + flags + [src, "-o", exe],
+                       capture_output=True, text=True)
+    if p.returncode != 0:
+        raise ExtractionError("constant evaluation program does not compile: " + p.stderr[-800:])
+    q = subprocess.run([exe], capture_output=True, text=True)
+    if q.returncode != 0:
+        raise ExtractionError("constant evaluation program failed")
+    return {l.split()[0]: int(l.split()[1]) for l in q.stdout.strip().split("\n") if l.strip()}
+
+
 def topo(defs):
     """defs: {tag: (text, deps)} -> ordered texts"""
     done, out, visiting = set(), [], set()
@@ -131,16 +162,18 @@ def translate(cfg, outdir):
     em.lifted_new = set()
     units = cfg["units"]
 
-    def fetch(u):
-        return astq.query(u["tu"], u["name"])
-
+    # optional per-unit key "filter": the substring handed to clang's -ast-dump-filter (default: the unit's name).
+    # Units of one TU that share a filter (e.g. "xbt_dynar") are read from ONE clang run; the unit's definition is
+    # still selected by its exact name below.
+    keys = sorted(set((u["tu"], u.get("filter", u["name"])) for u in units))
     with ThreadPoolExecutor(max_workers=int(os.environ.get("VF_JOBS", "8"))) as ex:
-        asts = list(ex.map(fetch, units))
+        fetched = dict(zip(keys, ex.map(lambda k: astq.query(k[0], k[1]), keys)))
+    asts = [fetched[(u["tu"], u.get("filter", u["name"]))] for u in units]
     texts, meta = [], []
 
     def emit_unit(u, objs, accessor_only=False):
         last = u["name"].split("::")[-1]
-        defs = find_defs(objs, last, u.get("sig"))
+        defs = find_defs(objs, last, u.get("sig"), u.get("targs"))
         if accessor_only:
             defs = [d for d in defs if is_accessor(d)]
             if len(defs) != 1:
@@ -159,7 +192,26 @@ def translate(cfg, outdir):
                                             "CXXConversionDecl"):
             parts = u["name"].split("::")
             cls = tm.struct_tag(parts[-2])
-        static = node.get("storageClass") == "static"
+        static = node.get("storageClass") == "static" or any(
+            o.get("kind") == "CXXMethodDecl" and o.get("storageClass") == "static" and o.get("name") == node.get("name") and
+            o.get("mangledName") == node.get("mangledName") for o in objs)  # `static` is written on the in-class declaration only
+        if not static and node.get("previousDecl"):
+            # out-of-line definition of a static member function: `static` is only on the in-class declaration
+            def decl_of(n, want, depth=0):
+                if n.get("id") == want:
+                    return n
+                if depth < 6:
+                    for c in n.get("inner", []):
+                        if isinstance(c, dict) and c.get("kind", "").endswith("Decl"):
+                            r = decl_of(c, want, depth + 1)
+                            if r is not None:
+                                return r
+                return None
+            for o in objs:
+                prev = decl_of(o, node["previousDecl"])
+                if prev is not None:
+                    static = prev.get("storageClass") == "static"
+                    break
         if node["kind"] == "CXXConstructorDecl":
             cname = u.get("cname") or em.fn_cname(cls, "ctor", node["type"]["qualType"])
         else:
@@ -176,7 +228,11 @@ def translate(cfg, outdir):
                             ex = [x for x in f.get("inner", []) if x.get("kind") != "FullComment"]
                             if ex:
                                 em.field_inits[(cls, f["name"])] = ex[-1]
-        sig, text, unit = em.emit_function(node, cname, cls if node["kind"] != "FunctionDecl" else None, static)
+        em.stop_at_call = u.get("stop_at_call")
+        try:
+            sig, text, unit = em.emit_function(node, cname, cls if node["kind"] != "FunctionDecl" else None, static)
+        finally:
+            em.stop_at_call = None
         em.unit_names.add(cname)
         rng = node.get("range", {})
         b = rng.get("begin", {})
@@ -203,26 +259,50 @@ def translate(cfg, outdir):
                     cn not in cfg.get("no_auto", [])]
             if not todo:
                 break
-            tu = cfg.get("accessor_tu", units[0]["tu"])
+            tus = []
+            for t in [cfg.get("accessor_tu")] + [u["tu"] for u in units]:
+                if t and t not in tus:
+                    tus.append(t)
 
             def fetch2(x):
-                return astq.query(tu, x[1].split(" ")[0])
+                last = x[1].split(" ")[0].split("::")[-1]
+                for tu in tus:  # first TU in which the callee has an inline accessor definition
+                    objs = astq.query(tu, x[1].split(" ")[0])
+                    if [d for d in find_defs(objs, last) if is_accessor(d)]:
+                        return tu, objs
+                return tus[0], []
 
             with ThreadPoolExecutor(max_workers=int(os.environ.get("VF_JOBS", "8"))) as ex:
                 res = list(ex.map(fetch2, todo))
-            for (cn, d), objs in zip(todo, res):
+            for (cn, d), (tu, objs) in zip(todo, res):
                 tried.add(cn)
                 qn = d.split(" ")[0]
                 emit_unit({"name": qn, "tu": tu, "cname": cn, "class": cn.rsplit("__", 1)[0]}, objs, True)
+    for lu in em.lifted_units:  # lifted lambdas / per-call-site algorithm models: may carry contracts like units
+        meta.append({"unit": "%s of %s" % (lu["kind"], lu["of"]), "cname": lu["cname"], "tu": None, "loops": lu["loops"],
+                     "lifted": True})
     # extra fields requested by the spec (ghost fields or fields used only by predicates)
     for tag, fields in cfg.get("extra_fields", {}).items():
         for f, ct in fields.items():
             em.field(tag, f, ct)
     for tag in cfg.get("extra_structs", []):
         em.structs.setdefault(tag, {})
+    # boost::intrusive lists: the element class carries the member hook the list model flips
+    for tag, (ect, hook) in list(tm.ilist_insts.items()):
+        em.field(ect[len("struct "):], hook, "struct vf_ihook")
     for d, bs in cfg.get("extra_bases", {}).items():
         for b in bs:
             em.add_base(d, b)
+
+    # ---- pointer conversions emitted as casts: the base must sit at offset 0 (chain of first bases)
+    for d, b in sorted(em.upcasts):
+        cur, seen = d, set()
+        while cur != b and em.bases.get(cur) and cur not in seen:
+            seen.add(cur)
+            cur = em.bases[cur][0]
+        if cur != b:
+            raise ExtractionError("conversion %s* -> %s*: %s is not known as a first base of %s (add extra_bases)" %
+                                  (d, b, b, d))
 
     # ---- enum constants
     enum_defs = []
@@ -279,6 +359,12 @@ def translate(cfg, outdir):
             defs[tag] = ("struct %s { char __opaque; };\n" % tag, [])
     h += topo(defs)
     h += enum_defs
+    for an, (ect, cnt) in sorted(tm.carr_insts.items()):
+        h.append("typedef %s %s[%s];" % (ect, an, cnt))
+    for n, v in sorted(eval_constants(cfg, em.const_needed, outdir).items()):
+        ct = em.const_types.get(n)
+        lit = "((%s)%d)" % (ct, v) if ct and ct != "int" and not ct.startswith("struct") and "*" not in ct else "(%d)" % v
+        h.append("#define VFC_%s %s /* %s, evaluated by g++ */" % (ident(n), lit, cfg["const_globals"][n]["expr"]))
     for i, k in enumerate(sorted(em.exc_kinds)):
         h.append("#define %s (%d)" % (k, 2 + i))
     h.append(models.gen_funcs(tm, lib))
@@ -317,8 +403,12 @@ def translate(cfg, outdir):
         for k in range(unit.loops):
             m = "VF_LOOP_%s_%d" % (cname, k)
             c.append("#ifndef %s\n#define %s\n#endif" % (m, m))
-        c.append("/* ---- unit %s ---- */" % cname)
+        # a plain lemma harness (no dfcc) may stand in for contract replacement by hand: -DVF_OVERRIDE_<cname> drops the
+        # unit's body so that the spec supplies a stub stating the unit's separately proved specification (the stub
+        # asserts the precondition it was proved under; the substitution is listed in check.json `trusted`)
+        c.append("/* ---- unit %s ---- */\n#ifndef VF_OVERRIDE_%s" % (cname, cname))
         c.append(text)
+        c.append("#endif")
     with open(os.path.join(outdir, "gen.c"), "w") as f:
         f.write("\n".join(c) + "\n")
     info = {"units": meta,
@@ -326,6 +416,7 @@ def translate(cfg, outdir):
             "dropped": {k: em.dropped.count(k) for k in set(em.dropped)},
             "models": {"seq": tm.seq_insts, "pair": {k: list(v) for k, v in tm.pair_insts.items()},
                        "opt": tm.opt_insts, "set": tm.set_insts,
+                       "ilist": {k: list(v) for k, v in tm.ilist_insts.items()},
                        "map": {k: list(v) for k, v in tm.map_insts.items()}},
             "exceptions": sorted(em.exc_kinds)}
     with open(os.path.join(outdir, "gen.json"), "w") as f:
